@@ -65,6 +65,15 @@ class lowerstr(str):  # pylint: disable=invalid-name
     """A prelowered string."""
 
 
+def _unique_case_data(
+    data: Dict[str, Any], case_map: Dict[str, Any]
+) -> Dict[str, Any]:
+    """Drop superseded spellings of keys that only differ in case (last one wins)."""
+    if len(case_map) == len(data):
+        return data
+    return {key: data[key] for key in case_map.values()}
+
+
 class CaseInsensitiveDict(abcMutableMapping):
     """Case insensitive dict."""
 
@@ -79,6 +88,7 @@ class CaseInsensitiveDict(abcMutableMapping):
             else k.lower(): k
             for k in self._data
         }
+        self._data = _unique_case_data(self._data, self._case_map)
 
     def copy(self) -> "CaseInsensitiveDict":
         """Copy a CaseInsensitiveDict.
@@ -101,6 +111,7 @@ class CaseInsensitiveDict(abcMutableMapping):
         _combined = CaseInsensitiveDict.__new__(CaseInsensitiveDict)
         _combined._data = {**self._data, **other._data}
         _combined._case_map = {**self._case_map, **other._case_map}
+        _combined._data = _unique_case_data(_combined._data, _combined._case_map)
         return _combined
 
     def combine_lower_dict(
@@ -115,6 +126,7 @@ class CaseInsensitiveDict(abcMutableMapping):
         _combined = CaseInsensitiveDict.__new__(CaseInsensitiveDict)
         _combined._data = {**self._data, **lower_dict}  # type: ignore[dict-item]
         _combined._case_map = {**self._case_map, **{k: k for k in lower_dict}}
+        _combined._data = _unique_case_data(_combined._data, _combined._case_map)
         return _combined
 
     def case_map(self) -> Dict[str, str]:
@@ -146,6 +158,7 @@ class CaseInsensitiveDict(abcMutableMapping):
                 else k.lower(): k
                 for k in self._data
             }
+            self._data = _unique_case_data(self._data, self._case_map)
 
     def del_lower(self, lower_key: str) -> None:
         """Delete a lower case key."""
